@@ -88,7 +88,13 @@ class UAIReader(object):
             grammar += function_grammar
 
         floatnumber = Combine(
-            Word(nums) + Optional(Literal(".") + Optional(Word(nums)))
+            Word(nums)
+            + Optional(Literal(".") + Optional(Word(nums)))
+            + Optional(
+                (Literal("e") | Literal("E"))
+                + Optional(Literal("-") | Literal("+"))
+                + Word(nums)
+            )
         )
         for function in range(0, self.no_functions):
             no_values_grammar = Word(nums).setResultsName(
@@ -233,12 +239,16 @@ class UAIReader(object):
                 values = self.grammar.parseString(self.network)[
                     "fun_values_" + str(function)
                 ]
+                if isinstance(values, str):
+                    values = [values]
                 tables.append((child_var, list(values)))
             elif self.network_type == "MARKOV":
                 function_variables = ["var_" + str(var) for var in function_variables]
                 values = self.grammar.parseString(self.network)[
                     "fun_values_" + str(function)
                 ]
+                if isinstance(values, str):
+                    values = [values]
                 tables.append((function_variables, list(values)))
         return tables
 
@@ -264,11 +274,16 @@ class UAIReader(object):
             model.add_edges_from(self.edges)
 
             tabular_cpds = []
-            for child_var, values in self.tables:
+            parsed = self.grammar.parseString(self.network)
+            for function, (child_var, values) in enumerate(self.tables):
                 states = int(self.domain[child_var])
                 values = np.fromiter(values, dtype=float)
                 values = values.reshape(states, values.size // states)
-                parents = list(model.predecessors(child_var))
+                # The evidence order is the one of the function's own scope (the
+                # writer lists the evidence reversed, followed by the child).
+                scope = parsed["fun_" + str(function)]
+                scope = [scope] if isinstance(scope, int) else list(scope)
+                parents = ["var_" + str(var) for var in scope[:-1]][::-1]
                 if len(parents) == 0:
                     tabular_cpds.append(TabularCPD(child_var, states, values))
                 else:
@@ -287,6 +302,10 @@ class UAIReader(object):
 
         elif self.network_type == "MARKOV":
             model = MarkovNetwork(self.edges)
+            # variables that occur in no edge (e.g. only in a unary factor)
+            model.add_nodes_from(
+                [var for var in self.variables if var not in model.nodes()]
+            )
 
             factors = []
             for table in self.tables:
